@@ -44,7 +44,7 @@ import json
 m=json.load(open('$SRC/meta.json'))
 m['confirmed']={'by':'tools/confirm_mutant.sh in a scratch worktree of /repo','clean_plus_demo_rc':$RC_CLEAN,'build_rc':$RC_BUILD,'existing_tests_rc':$RC_TESTS,'mutant_plus_demo_rc':$RC_MUT,
   'ran':['go build ./...','go test -vet=off -count=1 ./internal/... ./tests/testutil/...',m['demo_cmd']]}
-m['demo_files']={k:v for k,v in zip("$DEMOS".split(),[${DEST[@]@Q}])} if False else "$DEMOS".split()
+m['demo_files']="""$DEMOS""".split()
 json.dump(m,open('$D/meta.json','w'),indent=1)
 PY
   echo CONFIRMED $NAME
